@@ -2,6 +2,7 @@ package main
 
 import (
 	"fmt"
+	"strings"
 
 	"verifharness/internal/rng"
 )
@@ -499,5 +500,82 @@ func corpus() []Case {
 	}
 	out = append(out, Case{Profile: "corpus-ll", Format: "fmp4", Streams: []Stream{{Ref: "http://stub.test/s0-pl.m3u8?token=x",
 		History: []Playlist{ll(0, true, true), ll(1, true, false), ll(2, true, true), ll(3, false, true)}}}})
+	// segments that share a URI (sub-ranges of one resource with explicit offsets, or a plainly
+	// repeated URI) in playlists that carry ENDLIST: every listed segment must still be fetched
+	// exactly once, in order, before the stream ends
+	vod := Case{Profile: "corpus-shared-vod-ranges", Format: "ts", Streams: []Stream{{Ref: "http://stub.test/vod/s0-pl.m3u8",
+		History: []Playlist{a.playlist(0, 4, 0, true, "VOD"), a.playlist(0, 4, 1, true, "VOD"), a.playlist(0, 4, 2, true, "VOD"),
+			a.playlist(0, 4, 3, true, "VOD"), a.playlist(0, 4, 4, true, "VOD")}}}}
+	shareURIsMode(&vod, 0, 0, 564, 2)
+	out = append(out, vod)
+	live := Case{Profile: "corpus-shared-live-endlist-ranges", Format: "ts", Streams: []Stream{{Ref: "http://stub.test/live/s0-pl.m3u8",
+		History: []Playlist{a.playlist(7, 5, 0, false, ""), a.playlist(8, 5, 1, false, ""), a.playlist(9, 5, 2, true, ""),
+			a.playlist(9, 5, 3, true, ""), a.playlist(9, 5, 4, true, ""), a.playlist(9, 5, 5, true, "")}}}}
+	shareURIsMode(&live, 0, 4, 1000, 2)
+	out = append(out, live)
+	rep := Case{Profile: "corpus-shared-vod-repeated", Format: "ts", Streams: []Stream{{Ref: "http://stub.test/s0-pl.m3u8",
+		History: []Playlist{a.playlist(3, 3, 0, true, "VOD"), a.playlist(3, 3, 1, true, "VOD"), a.playlist(3, 3, 2, true, "VOD")}}}}
+	shareURIsMode(&rep, 1, 0, 0, 2)
+	out = append(out, rep)
+	ev := Case{Profile: "corpus-shared-event-period2", Format: "fmp4", Streams: []Stream{{Ref: "http://stub.test/s0-pl.m3u8",
+		History: []Playlist{b.playlist(0, 4, 0, false, "EVENT"), b.playlist(0, 5, 1, false, "EVENT"), b.playlist(0, 6, 2, true, "EVENT"),
+			b.playlist(0, 6, 3, true, "EVENT"), b.playlist(0, 6, 4, true, "EVENT"), b.playlist(0, 6, 5, true, "EVENT")}}}}
+	shareURIsMode(&ev, 2, 1, 0, 2)
+	out = append(out, ev)
 	return out
+}
+
+// shareURIsMode rewrites the segment URIs of every stream so that segments share a URI:
+//   mode 0: one resource, EXT-X-BYTERANGE sub-ranges with EXPLICIT offsets (id*L, length L)
+//   mode 1: one URI for every segment, no byte range
+//   mode 2: URIs repeat with the given period (id mod period), no byte range
+//   mode 3: `period` resources, explicit sub-ranges ((id / period)*L, length L)
+func shareURIsMode(c *Case, mode int, style int, L uint64, period int) {
+	ext := "ts"
+	if c.Format == "fmp4" {
+		ext = "mp4"
+	}
+	for si := range c.Streams {
+		h := c.Streams[si].History
+		for k := range h {
+			for i := range h[k].Segs {
+				sg := &h[k].Segs[i]
+				id := uint64(sg.ID)
+				name := fmt.Sprintf("s%d-segall.%s", si, ext)
+				sg.Start, sg.Len = nil, nil
+				switch mode {
+				case 0:
+					sg.Start, sg.Len = u64p(id*L), u64p(L)
+				case 2:
+					name = fmt.Sprintf("s%d-segr%d.%s", si, id%uint64(period), ext)
+				case 3:
+					name = fmt.Sprintf("s%d-segr%d.%s", si, id%uint64(period), ext)
+					sg.Start, sg.Len = u64p(id/uint64(period)*L), u64p(L)
+				}
+				sg.URI = segURI(style, name, 0)
+			}
+		}
+	}
+}
+
+// shareURIs turns a generated traditional-mode case whose history reaches ENDLIST into one whose
+// segments share URIs (decided by a PRNG stream of its own, so the other cases stay as they were)
+func shareURIs(c *Case, r *rng.R) {
+	if strings.HasPrefix(c.Profile, "ll-") || !r.Bool(2, 5) {
+		return
+	}
+	hasEnd := false
+	for _, st := range c.Streams {
+		for _, p := range st.History {
+			if p.Endlist && len(p.Segs) > 1 {
+				hasEnd = true
+			}
+		}
+	}
+	if !hasEnd {
+		return
+	}
+	mode := r.Pick(4, 2, 2, 2)
+	shareURIsMode(c, mode, r.Intn(nGoodStyles), uint64(100+r.Intn(900)), 2+r.Intn(2))
+	c.Profile += fmt.Sprintf("+shared-uri-%d", mode)
 }
